@@ -16,6 +16,9 @@ from typing import Any, Callable, List, Optional
 from .driver import cf_guard, is_control_flow
 
 
+HOLD = object()
+
+
 class Deadlock(BaseException):
     """Loop idle, nothing scheduled, the awaited future still pending."""
 
@@ -93,6 +96,8 @@ class VLoop(asyncio.base_events.BaseEventLoop):
         """Executor stub: complete after the submitter's duration, call func then."""
         fut = self.create_future()
         dur = self.duration_of() if self.duration_of is not None else 0
+        if dur is HOLD:
+            return fut  # held open: never completes
 
         def complete() -> None:
             if fut.cancelled():
@@ -157,10 +162,24 @@ class VLoop(asyncio.base_events.BaseEventLoop):
             ev._set_running_loop(old)
 
     def shutdown(self) -> None:
-        """Drop everything still queued (no callbacks run) and close."""
-        self._ready.clear()
-        self._scheduled.clear()
-        try:
-            self.close()
-        except BaseException:  # noqa: BLE001
-            pass
+        """Drop everything still queued (no callbacks run), close pending coroutines now (deterministically,
+        natively) instead of at some later garbage collection, and close the loop."""
+        from crosshair.tracers import NoTracing, is_tracing
+        import contextlib
+
+        with (NoTracing() if is_tracing() else contextlib.nullcontext()):
+            self._ready.clear()
+            self._scheduled.clear()
+            for t in self.tasks:
+                if not t.done():
+                    t._log_destroy_pending = False  # type: ignore[attr-defined]
+                    try:
+                        t.get_coro().close()
+                    except BaseException:  # noqa: BLE001
+                        pass
+            self._ready.clear()
+            self._scheduled.clear()
+            try:
+                self.close()
+            except BaseException:  # noqa: BLE001
+                pass
